@@ -123,25 +123,30 @@ class Check(PropertyCheck):
     prop = "C34"
     design_ref = "§5 C34"
     level_text = ("Lean theorems about the cookie grammar as implemented (_read_until, _read_quoted_string with backslash escapes, _read_value, "
-                  "_read_cookie_pairs, _format_pairs with _has_special quoting and ESCAPE) for ALL pair lists and ALL header strings: "
-                  "cookie_roundtrip (Representable ps -> parseCookie (formatCookie ps) = ps, by induction over the list), "
-                  "parse_yields_representable, request_cookies_view_roundtrip and view_writeback_idempotent (writing the parsed view of ANY "
-                  "Cookie header values back and parsing again gives the same pairs); set_cookie_header_roundtrip and set_cookie_roundtrip for the "
-                  "Set-Cookie grammar (_read_set_cookie_pairs with the expires heuristic, unary attributes, unquoted expires/path) — every "
-                  "representable cookie-with-attributes list written one header per cookie reads back identically; query_view_roundtrip with urllib's urlencode/parse_qsl "
-                  "as parameters; multipart encode/decode as implemented (split on --boundary, splitlines, name regex, join) with "
-                  "multipart_roundtrip_counterexample (F-C34a). Cookie, Set-Cookie and multipart models tied differentially to cookies.py, "
-                  "multipart.py and the real Request/Response views; all six views checked on the real objects by the oracle.")
-    level_note = ("PARTIAL: proved = the Cookie-header view (round trip and write-back, all inputs) and the query view modulo the urllib law. "
-                  "The Cookie-header and Set-Cookie round trips are proved for all inputs (Set-Cookie write-back of arbitrary received headers is not: "
-                  "F-C34f). NOT proved (model + differential tie + oracle only): the multipart round trip under its guards (only "
-                  "the counterexample is proved), urlencoded-form and path-component views (urllib parameters; oracle on the real objects only). "
+                  "_read_cookie_pairs, _read_set_cookie_pairs with the expires heuristic, _format_pairs with _has_special quoting and ESCAPE) for "
+                  "ALL pair lists and ALL header strings: cookie_roundtrip (Representable ps -> parseCookie (formatCookie ps) = ps), "
+                  "parse_yields_representable, request_cookies_view_roundtrip, view_writeback_idempotent (any Cookie header values), "
+                  "set_cookie_header_roundtrip and set_cookie_roundtrip (response cookies with attributes, one header per cookie); "
+                  "multipart_roundtrip_partial (encode_multipart/decode_multipart as implemented — bytes.split on --boundary, splitlines, the "
+                  "name regex, join — for every part list with keys free of quote/CR/LF, values free of CR/LF and no delimiter inside a written "
+                  "part: the decoded pairs are the encoded ones, by induction over the list) and multipart_roundtrip_counterexample (F-C34a); "
+                  "form_view_roundtrip (urlencoded form: pairs read back, content type reset to the bare form type whatever charset it carried, "
+                  "write-back is the identity) and query_view_roundtrip with urllib's urlencode/parse_qsl and the text codec as parameters. "
+                  "Cookie, Set-Cookie, multipart and url.encode's style imitation are tied differentially to the real functions and views; all "
+                  "six views are checked on the real Request/Response objects by the oracle.")
+    level_note = ("PARTIAL: multipart_roundtrip_partial states its delimiter guard on the written part (NoEarly (--boundary) (piece k v ct), "
+                  "decidable) rather than deriving it from 'key/value/content type do not contain --boundary'; encoder and decoder use the same "
+                  "boundary there (F-C34c is the case where urllib.quote changes it). form_view_roundtrip and query_view_roundtrip assume the "
+                  "urllib laws (parse_qsl (urlencode ps) = ps; urlencode writes no parameter without '='; the bare form content type decodes "
+                  "ASCII bytes back) and the guard that the existing body has no bare parameter (else F-C34e). The path_components view has no "
+                  "theorem (oracle on the real objects only). Set-Cookie write-back of arbitrary received headers is not idempotent (F-C34f). "
                   "Findings: F-C34a CR/LF in multipart values dropped (encoder's extra blank line is pinned by test_multipart, so the decoder "
                   "cannot be repaired alone), F-C34b multipart keys with a double quote/CR/LF truncated, F-C34c boundary characters that "
                   "urllib.quote escapes, F-C34d path_components write-back collapses empty segments / trailing slash, F-C34e ('','') form "
-                  "pair erased in bare-parameter style, F-C34g query/path_components write-back replaces the asterisk-form target, F-C34f Set-Cookie write-back of expires/path values holding ';' ',' or a leading "
-                  "quote. str.lower() is modelled as ASCII lower-casing; empty path components, empty multipart keys, values containing the "
-                  "multipart delimiter and cookie names containing ';' '=' or leading whitespace are not representable in the wire format.")
+                  "pair erased in bare-parameter style, F-C34f Set-Cookie write-back of expires/path values holding ';' ',' or a leading "
+                  "quote, F-C34g query/path_components write-back replaces the asterisk-form target. str.lower() is modelled as ASCII "
+                  "lower-casing; empty path components, empty multipart keys, a multipart content type without a lower-case boundary "
+                  "parameter, and cookie names containing ';' '=' or leading whitespace are not representable in the wire format.")
     technique = "Lean 4 proof (induction over pair lists / header strings) + differential correspondence on cookies.py, multipart.py and the views"
     rule = ("pair lists (0–4 pairs) over an alphabet of separators (; = , \" \\ space tab CR LF), controls, Latin-1/BMP/astral characters and "
             "surrogate-escaped bytes for each view: request cookies, response cookies with attributes (expires/path/unary), urlencoded form "
@@ -574,6 +579,15 @@ class Check(PropertyCheck):
             return ["scfmt " + self._pairs_field([(n, v)] + [tuple(a) for a in attrs]) for n, v, attrs in case["cookies"]]
         if k == "setcookiehdr":
             return ["scparse " + cps(h) for h in case["hdrs"]]
+        if k in ("form", "formwb"):
+            # url.encode(pairs, similar_to) with urllib's urlencode as the parameter: the style imitation (bare parameters) is the model's
+            import urllib.parse
+            hd = [] if case["ct"] is None else [(b"content-type", case["ct"].encode())]
+            body = b"" if case.get("body0") is None else case["body0"].encode(case.get("benc") or "utf-8")
+            r = self._req(headers=hd, content=body)
+            similar = self._text_seen_by_setter(r)
+            pairs = [tuple(p) for p in case["pairs"]] if k == "form" else list(r.urlencoded_form.fields)
+            return ["formenc %s %s" % (cps(urllib.parse.urlencode(pairs, False, errors="surrogateescape")), cps(similar))]
         if k in ("multipart", "mpbody"):
             if k == "mpbody":
                 b = self._boundary(case["ct"])
@@ -612,6 +626,8 @@ class Check(PropertyCheck):
         if k == "multipart":
             if obs["set"] != "ok": return ["raise"]
             return ["%s %s" % (obs["body_hex"], ",".join("%s=%s" % (a, b) for a, b in obs["back"]) or "-")]
+        if k in ("form", "formwb"):
+            return [cps(unhx(obs["body_hex"]).decode("ascii"))]
         if k == "mpbody":
             return ["raise" if obs["dec"] == "ValueError" else (",".join("%s=%s" % (a, b) for a, b in obs["dec"]) or "-")]
         return None
